@@ -1,5 +1,6 @@
 import M3d.Basic
 import M3d.Model.Collide
+import M3d.Model.CollideXf
 /-!
 Line-protocol handler for C07.  Core-only; runs the models of `M3d/Model/Collide.lean`
 * at `Rat` for the `…x` kinds (exact mode: dyadic inputs on which every Go float operation is exact),
@@ -19,6 +20,13 @@ Kinds (see notes/C07.md):
   segx   a b c s0 s1                  Triangle.SegmentCollision                             (Rat)
   sphereb c r o d | trib a b c o d | seg2b s0 s1 o d | rectb lo hi o d | planeb n bias o d |
   circleb n c r o d | cylb p1 p2 r o d | capb p1 p2 r o d                                  (Float bits)
+  tballx  xf3 n (a b c)… ctr r        TransformCollider(t, triangles).SphereCollision = the IMAGE triangles
+                                      are within r of ctr                                   (Rat, spec)
+  tsphx   xf3 center R ctr r          TransformCollider(t, Sphere).SphereCollision = the image sphere meets
+                                      the closed ball                                       (Rat, spec)
+  tcircx  xf2 n (s0 s1)… ctr r        2-D TransformCollider(t, segments).CircleCollision    (Rat, spec)
+  tcirc2x xf2 center R ctr r          2-D TransformCollider(t, Circle).CircleCollision      (Rat, spec)
+  (xf: T x y [z] | S s | O m… | J n xf…, the token syntax of C05)
 -/
 namespace M3d.Drv.C07
 open M3d M3d.Col
@@ -299,6 +307,120 @@ def hSegx (ws : List String) : Option String := do
   if !ws.isEmpty then none
   some (boolStr (triSegment sqrtQ epsQ a b c s0 s1))
 
+/-! ### ball queries against transformed colliders
+
+The answer printed is what the property demands — "the image surface meets the ball", evaluated sqrt-free on
+the image triangles / segments / the image sphere — and the line is refused (`MODEL-NE-SPEC`) if the faithful
+model of `transformedCollider.SphereCollision` (`tSphere`: centre through `t.Inverse()`, radius through
+`t.Inverse().ApplyDistance`, then the wrapped collider's own method) answers differently.  That the two agree
+for every similarity transform is `M3d.C07.transformed_ball_touches_iff_triangle`, `…_segment2d`, `…_sphere`,
+`…_circle2d`; the hypotheses of those theorems (`DistValid`, non-degenerate shapes, `r ≥ 0`) are checked here. -/
+
+mutual
+partial def pXf3 : List String → Option (Tf.Xf Q × List String)
+  | "T" :: ws => do let (v, ws) ← pV3 parseRat ws; some (.translate v.toTf, ws)
+  | "S" :: ws => do let (s, ws) ← pScalar parseRat ws; some (.scale s, ws)
+  | "O" :: ws => do
+      let (r0, ws) ← pV3 parseRat ws
+      let (r1, ws) ← pV3 parseRat ws
+      let (r2, ws) ← pV3 parseRat ws
+      some (.ortho ⟨r0.x, r0.y, r0.z, r1.x, r1.y, r1.z, r2.x, r2.y, r2.z⟩, ws)
+  | "J" :: ws => do let (n, ws) ← pNat ws; pJoin3 n ws
+  | _ => none
+partial def pJoin3 : Nat → List String → Option (Tf.Xf Q × List String)
+  | 0, ws => some (.jnil, ws)
+  | n + 1, ws => do
+      let (t, ws) ← pXf3 ws
+      let (r, ws) ← pJoin3 n ws
+      some (.jcons t r, ws)
+end
+
+mutual
+partial def pXf2 : List String → Option (Tf.Xf2 Q × List String)
+  | "T" :: ws => do let (v, ws) ← pV2 parseRat ws; some (.translate v.toTf, ws)
+  | "S" :: ws => do let (s, ws) ← pScalar parseRat ws; some (.scale s, ws)
+  | "O" :: ws => do
+      let (r0, ws) ← pV2 parseRat ws
+      let (r1, ws) ← pV2 parseRat ws
+      some (.ortho ⟨r0.x, r0.y, r1.x, r1.y⟩, ws)
+  | "J" :: ws => do let (n, ws) ← pNat ws; pJoin2 n ws
+  | _ => none
+partial def pJoin2 : Nat → List String → Option (Tf.Xf2 Q × List String)
+  | 0, ws => some (.jnil, ws)
+  | n + 1, ws => do
+      let (t, ws) ← pXf2 ws
+      let (r, ws) ← pJoin2 n ws
+      some (.jcons t r, ws)
+end
+
+/-- the decidable form of `Tf.Xf.DistValid` (non-zero scales, `MᵀM = 1`) -/
+def xfOK3 : Tf.Xf Q → Bool
+  | .translate _ => true
+  | .scale s => s != 0
+  | .ortho m => m.transpose.mul m == Tf.M3.one
+  | .jnil => true
+  | .jcons t r => xfOK3 t && xfOK3 r
+  | _ => false
+
+def xfOK2 : Tf.Xf2 Q → Bool
+  | .translate _ => true
+  | .scale s => s != 0
+  | .ortho m => m.transpose.mul m == Tf.M2.one
+  | .jnil => true
+  | .jcons t r => xfOK2 t && xfOK2 r
+  | _ => false
+
+def verdict (spec model : Bool) : String :=
+  if spec == model then boolStr spec else s!"MODEL-NE-SPEC spec={boolStr spec} model={boolStr model}"
+
+def hTBall (ws : List String) : Option String := do
+  let (t, ws) ← pXf3 ws
+  let (n, ws) ← pNat ws
+  let (tris, ws) ← pTris n ws
+  let (ctr, ws) ← pV3 parseRat ws
+  let (r, ws) ← pScalar parseRat ws
+  let nondeg := tris.all fun (a, b, c) =>
+    let nrm := (b.sub a).cross (c.sub a)
+    nrm.dot nrm != 0
+  if !ws.isEmpty || !xfOK3 t || r < 0 || !nondeg then none
+  let spec := tris.any fun (a, b, c) => triBallSpec (xfApply t a) (xfApply t b) (xfApply t c) ctr (r * r)
+  let model := tSphere t (fun q rho => tris.any fun (a, b, c) => triSphere sqrtQ epsQ a b c q rho) ctr r
+  some (verdict spec model)
+
+def hTSph (ws : List String) : Option String := do
+  let (t, ws) ← pXf3 ws
+  let (center, ws) ← pV3 parseRat ws
+  let (bigR, ws) ← pScalar parseRat ws
+  let (ctr, ws) ← pV3 parseRat ws
+  let (r, ws) ← pScalar parseRat ws
+  if !ws.isEmpty || !xfOK3 t || r < 0 || bigR < 0 then none
+  let spec := ballSphereSpec (ctr.distSq (xfApply t center)) (t.applyDistance bigR) r
+  let model := tSphere t (sphereBall sqrtQ center bigR) ctr r
+  some (verdict spec model)
+
+def hTCirc (ws : List String) : Option String := do
+  let (t, ws) ← pXf2 ws
+  let (n, ws) ← pNat ws
+  let (segs, ws) ← pSegs n ws
+  let (ctr, ws) ← pV2 parseRat ws
+  let (r, ws) ← pScalar parseRat ws
+  let nondeg := segs.all fun (a, b) => (b.sub a).dot (b.sub a) != 0
+  if !ws.isEmpty || !xfOK2 t || r < 0 || !nondeg then none
+  let spec := segs.any fun (a, b) => seg2BallSpec (xf2Apply t a) (xf2Apply t b) ctr (r * r)
+  let model := tCircle t (fun q rho => segs.any fun (a, b) => seg2Circle sqrtQ a b q rho) ctr r
+  some (verdict spec model)
+
+def hTCirc2 (ws : List String) : Option String := do
+  let (t, ws) ← pXf2 ws
+  let (center, ws) ← pV2 parseRat ws
+  let (bigR, ws) ← pScalar parseRat ws
+  let (ctr, ws) ← pV2 parseRat ws
+  let (r, ws) ← pScalar parseRat ws
+  if !ws.isEmpty || !xfOK2 t || r < 0 || bigR < 0 then none
+  let spec := ballSphereSpec (ctr.distSq (xf2Apply t center)) (t.applyDistance bigR) r
+  let model := tCircle t (circleBall sqrtQ center bigR) ctr r
+  some (verdict spec model)
+
 def handleAll (ws : List String) : Option String :=
   match ws with
   | "obs3" :: rest => handleObs rest
@@ -311,6 +433,10 @@ def handleAll (ws : List String) : Option String :=
   | "ballx" :: rest => hBall rest
   | "circx" :: rest => hCirc rest
   | "segx" :: rest => hSegx rest
+  | "tballx" :: rest => hTBall rest
+  | "tsphx" :: rest => hTSph rest
+  | "tcircx" :: rest => hTCirc rest
+  | "tcirc2x" :: rest => hTCirc2 rest
   | "rectb" :: rest => hRect floatOfHex hexOfFloat rest
   | "trib" :: rest => hTri Float.sqrt epsF floatOfHex hexOfFloat rest
   | "seg2b" :: rest => hSeg2 Float.sqrt epsF floatOfHex hexOfFloat rest
